@@ -95,10 +95,8 @@ func b2i(b bool) int {
 }
 
 func view4(d *dhcpv4.DHCPv4) string {
-	mt := 0
-	if v := d.Options.Get(dhcpv4.OptionDHCPMessageType); len(v) >= 1 {
-		mt = int(v[0])
-	}
+	// as the code reads it: MessageType() is MessageTypeNone unless option 53 is exactly one byte
+	mt := int(d.MessageType())
 	return fmt.Sprintf("%d %d %s %d %s %d %s %s %s %s", d.OpCode, mt, hx(d.TransactionID[:]), d.HWType, hx(d.ClientHWAddr), d.Flags,
 		hx(d.ClientIPAddr.To4()), hx(d.GatewayIPAddr.To4()), hxOpt(d.Options.Get(dhcpv4.OptionRelayAgentInformation)), hxOpt(d.Options.Get(dhcpv4.OptionClientIdentifier)))
 }
@@ -115,10 +113,7 @@ func hxOpt(b []byte) string {
 }
 
 func resp4str(r *dhcpv4.DHCPv4) string {
-	mt := 0
-	if v := r.Options.Get(dhcpv4.OptionDHCPMessageType); len(v) >= 1 {
-		mt = int(v[0])
-	}
+	mt := int(r.MessageType())
 	return fmt.Sprintf("%d %d %s %d %s %d %s %s %s %s %s", r.OpCode, mt, hx(r.TransactionID[:]), r.HWType, hx(r.ClientHWAddr), r.Flags,
 		hx(r.GatewayIPAddr.To4()), hx(r.YourIPAddr.To4()), hxOpt(r.Options.Get(dhcpv4.OptionRelayAgentInformation)),
 		hxOpt(r.Options.Get(dhcpv4.OptionClientIdentifier)), tags4(r))
